@@ -79,7 +79,7 @@ def shards(tier):
 
 def floors(tier):
     return {"cases": 20000, "insertions": 20000, "insertions_depth2plus": 1000, "would_fail_values": 8000,
-            "next_to_ref": 1000, "base_uri_cases": 100, "own_id_next_to_ref": 100, "foreign_sibling_matrix_cases": 50000, "root_ref_cases": 500, "embedded_lookalike_cases": 2000, "empty_or_hash_ref_cases": 1000, "cross_document_chain_cases": 5000, "cases_with_errors": 5000, "foreign_names_used": 150,
+            "next_to_ref": 1000, "base_uri_cases": 100, "own_id_next_to_ref": 100, "foreign_sibling_matrix_cases": 50000, "root_ref_cases": 500, "embedded_lookalike_cases": 2000, "empty_or_hash_ref_cases": 1000, "cross_document_chain_cases": 5000, "deep_foreign_value_cases": 1000, "cases_with_errors": 5000, "foreign_names_used": 150,
             "foreign_id_in_store_document_cases": 100, "check_schema_compared": 5000, "many_foreign_member_cases": 100, "module_validate_with_foreign_dollar_schema": 5000}
 
 
@@ -411,6 +411,78 @@ def root_ref_cases(ctx, d, rng):
                     compare(ctx, d, S, S2, log, inst)
 
 
+def _deep_value(depth, shape):
+    v = "bottom"
+    for k in range(depth):
+        v = [v] if shape == "list" or (shape == "mixed" and k % 2) else {"k": v}
+    return v
+
+
+def deep_foreign_one(ctx, d, name, depth, shape, place, inst):
+    """The value of a member the draft does not define is never looked into, however large: one nested hundreds or
+    thousands of levels deep (plain JSON all the same) changes nothing - evaluated under the interpreter's default
+    recursion limit, through the class, is_valid and the module-level function."""
+    import sys
+    import jsonschema
+    val = _deep_value(depth, shape)
+    if name == "examples":
+        val = [val]
+    inner = {"type": "integer", "minimum": 3}
+    base = {"properties": {"a": inner, "r": {"$ref": "#/definitions/t"}}, "definitions": {"t": {"type": "string"}}, "required": ["a"] if d != 3 else True}
+    if d == 3:
+        base = {"properties": {"a": dict(inner, required=True), "r": {"$ref": "#/definitions/t"}}, "definitions": {"t": {"type": "string"}}}
+    S = base
+    if place == "root":
+        S2 = dict(base, **{name: val})
+    elif place == "nested":
+        S2 = dict(base, properties=dict(base["properties"], a=dict(base["properties"]["a"], **{name: val})))
+    else:   # next to the reference
+        S2 = dict(base, properties=dict(base["properties"], r={"$ref": "#/definitions/t", name: val}))
+    case = {"draft": d, "deep_foreign": {"name": name, "depth": depth, "shape": shape, "place": place}, "instance": inst}
+    ctx.case(["deep-foreign", d, name, depth, shape, place, inst])
+    ctx.count("deep_foreign_value_cases")
+
+    def observe(schema):
+        out = []
+        for how in ("iter_errors", "is_valid", "module validate"):
+            try:
+                if how == "iter_errors":
+                    out.append(fps(impl.CLS[d](schema).iter_errors(inst), message=False))
+                elif how == "is_valid":
+                    out.append(impl.CLS[d](schema).is_valid(inst))
+                else:
+                    try:
+                        jsonschema.validate(inst, schema, cls=impl.CLS[d])
+                        out.append("valid")
+                    except X.ValidationError as e:
+                        out.append(fp(e, message=False))
+            except Exception as e:
+                out.append("exc:" + type(e).__name__)
+        return out
+    limit = sys.getrecursionlimit()
+    sys.setrecursionlimit(1000)
+    try:
+        o0, o1 = observe(S), observe(S2)
+    finally:
+        sys.setrecursionlimit(limit)
+    if o0 != o1:
+        k = [i for i in range(3) if o0[i] != o1[i]][0]
+        ctx.violation("outcome-changed", case, "%s: %r without the member, %r with %r: <a value nested %d deep>" % (
+            ("iter_errors", "is_valid", "module validate")[k], o0[k] if not isinstance(o0[k], list) else o0[k][:2], o1[k] if not isinstance(o1[k], list) else o1[k][:2], name, depth))
+
+
+def deep_foreign_values(ctx, d):
+    n = 0
+    # (names whose value the draft's metaschema leaves open: validate() checks the schema first)
+    for name in ("default", "examples", "x-vendor-notes", "vf-unknown", "const" if d <= 4 else "divisibleBy", "definitions2"):
+        for depth in (100, 480, 700, 990, 1400, 2500):
+            for shape in ("list", "dict", "mixed"):
+                for place in ("root", "nested", "next-to-ref"):
+                    n += 1
+                    inst = [{"a": 1, "r": 5}, {"r": "s"}, {"a": 7, "r": "s"}][n % 3]
+                    deep_foreign_one(ctx, d, name, depth, shape, place, inst)
+
+
 def _chain_store():
     far = "http://far.example/lib/defs.json"
     return {far: {"definitions": {"t": {"$ref": "leaf.json"}, "u": {"items": {"$ref": "leaf.json"}},
@@ -520,6 +592,7 @@ def run(ctx):
             base_uri_cases(ctx, d, rr)
             empty_ref_cases(ctx, d, rr)
             cross_document_chains(ctx, d, rr)
+            deep_foreign_values(ctx, d)
             root_ref_cases(ctx, d, rr)
             embedded_lookalikes(ctx, d, rr)
             foreign_id_in_store_documents(ctx, d)
@@ -591,6 +664,10 @@ def replay(ctx, rec):
     c = rec["case"]
     d = c["draft"]
     rf = None
+    if "deep_foreign" in c:
+        q = c["deep_foreign"]
+        deep_foreign_one(ctx, d, q["name"], q["depth"], q["shape"], q["place"], c["instance"])
+        return
     if "plan" in c:
         foreign_id_in_store_documents(ctx, d)      # small and deterministic: the whole cell again
         return
